@@ -2,6 +2,7 @@ import ParryModel.Proto
 import ParryModel.C18.Model
 import ParryModel.C18.ModelAcd2
 import ParryModel.C18.DriverVox
+import ParryModel.C18.DriverMap3
 import Std.Data.HashSet
 /-! C18 protocol handlers. -/
 namespace C18
@@ -11,6 +12,7 @@ def pvoxel : P Voxel := do let i ← pnat; let j ← pnat; let k ← pnat; let s
 def pvoxels : P (List Voxel) := plist pvoxel
 /-- implementation-output point: components may be `nan` -/
 def pv3o : P (V3 Float) := do let x ← pfo; let y ← pfo; let z ← pfo; pure ⟨x, y, z⟩
+def pv2o : P (V2 Float) := do let x ← pfo; let y ← pfo; pure ⟨x, y⟩
 def pmesh : P (List (V3 Float) × List (Nat × Nat × Nat)) := do
   let pts ← plist pv3
   let tris ← plist (do let a ← pnat; let b ← pnat; let c ← pnat; pure (a, b, c))
@@ -382,8 +384,110 @@ def hullSampleOracle (origin : V3 Float) (scale : Float) (voxels : List Voxel) (
     let ns := (voxels.filter (·.surf)).length
     if sampling ≤ 1 && ns ≥ 1 && hull.length < 4 then "fail no-hull-for-a-non-empty-voxel-set" else "pass"
 
+/-! ## 2-D VHACD (`parry2d-f64`): `acd2` (decision replay of `do_compute_acd` on the real 2-D voxelization) and `hulls2`
+
+The 2-D voxel `(i, j)` is the model voxel `(i, j, 0)`, the 2-D point `(x, y)` is `(x, y, 0)` and the plane `(a, b; d)` is
+`((a, b, 0); d)`: `VoxelSet::clip` computes `abc.dot(origin + coords * scale) + d`, to which the third component adds
+`0 * 0`; the comparisons `d >= 0`, `d <= scale`, `-d <= scale` are unaffected. -/
+
+structure Acd2Args where
+  maxh : Nat
+  res : Nat
+  pts : List (V2 Float)
+  edges : List (Nat × Nat)
+  origin : V2 Float
+  scale : Float
+  voxels : List Voxel
+  decs : List (Option (CutPlane Float))
+
+def pvoxel2 : P Voxel := do let i ← pnat; let j ← pnat; let s ← pbool; pure ⟨i, j, 0, s⟩
+def pvoxels2 : P (List Voxel) := plist pvoxel2
+def pdecision2 : P (Option (CutPlane Float)) := do
+  let t ← pnat
+  if t = 0 then pure none else do let abc ← pv2; let d ← pf; pure (some ⟨⟨abc.x, abc.y, 0⟩, d⟩)
+def pacd2Base : P (Nat × Nat × List (V2 Float) × List (Nat × Nat)) := do
+  let maxh ← pnat; let res ← pnat; let _fm ← pnat; let _conc ← pf; let _pds ← pnat; let _hds ← pnat
+  let pts ← plist pv2
+  let edges ← plist (do let a ← pnat; let b ← pnat; pure (a, b))
+  pure (maxh, res, pts, edges)
+def pacd2 : P Acd2Args := do
+  let (maxh, res, pts, edges) ← pacd2Base
+  let origin ← pv2o; let scale ← pfo
+  let voxels ← pvoxels2
+  let decs ← plist pdecision2
+  pure ⟨maxh, res, pts, edges, origin, scale, voxels, decs⟩
+def fvoxels2 (vs : List Voxel) : String :=
+  String.intercalate " " (toString vs.length :: vs.map fun v => s!"{v.i} {v.j} {fb v.surf}")
+def fparts2 (ps : List (List Voxel)) : String :=
+  String.intercalate " " (toString ps.length :: ps.map fvoxels2)
+
+def gridSanity2 (res : Nat) (origin : V2 Float) (scale : Float) (vs : List Voxel) : Option String :=
+  gridSanity res [origin.x, origin.y] scale [maxNat (vs.map (·.i + 1)), maxNat (vs.map (·.j + 1))]
+
+/-- every corner of every voxel of a part lies in the convex polygon returned for the part (either orientation; exact
+rational cross products, tolerance relative to the size of the coordinates) -/
+def hull2Oracle (org : V2 Float) (sc : Float) (parts : List (List Voxel)) (hulls : List (List (V2 Float))) : String :=
+  if parts.length != hulls.length then s!"fail hull-count {hulls.length} for {parts.length} parts" else
+  let O := q2 org; let S := q sc
+  let bad := ((List.range parts.length).zip (parts.zip hulls)).filterMap fun (pi, part, hull) =>
+    if part.isEmpty then none else
+    if !(hull.all finite2) then some s!"fail non-finite hull vertex (part {pi})" else
+    let H := hull.map q2
+    match H with
+    | [] => some s!"fail empty-hull-for-non-empty-part {pi}"
+    | h0 :: _ =>
+      let edges := H.zip (H.drop 1 ++ [h0])
+      let area2 := edges.foldl (fun acc (a, b) => acc + (a.x * b.y - a.y * b.x)) (0 : Rat)
+      let sgn : Rat := if area2 < 0 then -1 else 1
+      let mag := H.foldl (fun m v => max m (max (rabs v.x) (rabs v.y))) (rabs S)
+      let tol : Rat := tolDefault * (1 + mag) * (1 + mag)
+      let corners : List (V2 Rat) := part.flatMap fun v =>
+        [(-1, -1), (1, -1), (1, 1), (-1, 1)].map fun (dx, dy) =>
+          (⟨O.x + ((v.i : Rat) + (dx : Rat) / 2) * S, O.y + ((v.j : Rat) + (dy : Rat) / 2) * S⟩ : V2 Rat)
+      match corners.find? (fun c => edges.any fun (a, b) => sgn * ((b.x - a.x) * (c.y - a.y) - (b.y - a.y) * (c.x - a.x)) < -tol) with
+      | some _ => some s!"fail voxel-of-part-{pi}-outside-its-convex-hull"
+      | none => none
+  match bad with
+  | b :: _ => b
+  | [] => "pass"
+
 def handler (fn : String) : Option Handler :=
   match fn with
+  | "acd2" => some {
+      model := fun a => run (do
+        let x ← pacd2
+        let parts := acd (⟨x.origin.x, x.origin.y, 0⟩ : V3 Float) x.scale (replayOracle (K := Float)) x.decs x.maxh x.voxels
+        pure (fparts2 parts)) a
+      oracle := fun a o => match o with
+        | "panic" :: _ => (match run pacd2Base a with
+          | some (_, res, pts, edges) => (match domain2 res pts edges with
+            | some why => s!"skip {why}"
+            | none => "fail panic")
+          | none => "skip bad-args")
+        | _ => match run pacd2 a with
+          | some x => (match domain2 x.res x.pts x.edges with
+            | some why => s!"skip {why}"
+            | none => match gridSanity2 x.res x.origin x.scale x.voxels with
+              | some bad => bad
+              | none => match run (plist pvoxels2) o with
+                | some parts => acdOracle ⟨x.maxh, x.res, [], [], ⟨x.origin.x, x.origin.y, 0⟩, x.scale, x.voxels, x.decs⟩ parts
+                | none => "fail unparsable-output")
+          | none => "skip bad-args" }
+  | "hulls2" => some {
+      model := fun _ => some "-"
+      oracle := fun a o => match run pacd2Base a with
+        | none => "skip bad-args"
+        | some (_, res, pts, edges) =>
+          match domain2 res pts edges with
+          | some why => s!"skip {why}"
+          | none =>
+          match o with
+          | "panic" :: _ => "fail panic"
+          | _ => match run (do let org ← pv2o; let sc ← pfo; let parts ← plist pvoxels2; let hs ← plist (plist pv2o); pure (org, sc, parts, hs)) o with
+            | some (org, sc, parts, hs) =>
+              if !(finite2 org) || !(FloatIO.isFinite sc) then "fail non-finite origin or scale" else
+              hull2Oracle org sc parts hs
+            | none => "fail unparsable-output" }
   | "parts3" => some {
       model := fun a => run (do let x ← pacd; pure (modelParts3 x)) a
       oracle := fun a o => match o with
@@ -489,6 +593,8 @@ def handler (fn : String) : Option Handler :=
             | some bad => bad
             | none => hullOracle org sc parts hs)
           | none => "fail unparsable-output" }
-  | _ => handlerVox fn
+  | _ => match handlerVox fn with
+    | some h => some h
+    | none => handlerMap3 fn
 
 end C18
